@@ -716,6 +716,9 @@ func installOwnership(i *interpreter, poolBudget int) {
 				walk(x[k], depth+1)
 			}
 		case []value:
+			// the whole backing array counts, spare capacity included: an append within the
+			// capacity of a package-level slice writes there
+			x = x[:cap(x)]
 			if len(x) == 0 || seenSlices[&x[0]] {
 				return
 			}
